@@ -24,7 +24,7 @@ import (
 
 func TestMain(m *testing.M) {
 	vk.Main(m, "C19", "exploration",
-		"valid sources: every repository source that parses (verbatim), and drawn variants = base source (corpus file, gosub program, xsugar collection / error-wrap program, xgotext file in normal and class-file mode) optionally followed by an AST mutation (operator swap, wrap in unary/paren/call/index/ErrWrap/selector/slice/star, move into lambda / block lambda / comprehension / range / slice literal / function literal, call <-> command style; printed comment-free with printer.Fprint and kept only if it parses), comments at conventional places (// and # on a line of their own before a statement, declaration, spec or field, // trailing a statement line) and a white-space perturbation (blanks, tabs, line breaks at token boundaries that do not touch a comment; kept only if it parses). Oracle: format.Source succeeds, its output parses, and astx.FormatEqual(parse(src), parse(out)) = equal ignoring positions, comment fields, ParenExpr wrappers, explicit empty statements and the order / duplicates / quoting of import specs. A failing source that shows the shape of a listed finding (fmtin.Shapes) fails under class shape/<name>, any other under its own class; the one shape that ends the process (one-line block with a for-in statement) is steered away from and kept as an isolated regress file. Non-trivial = tree holds an XGo-specific construct (command call, lambda, comprehension, ErrWrap, range, domain text, overload declaration, class field block, ...); distinct = source bytes")
+		"valid sources: every repository source that parses (verbatim), and drawn variants = base source (corpus file, gosub program, xsugar collection / error-wrap program, xgotext file in normal and class-file mode) optionally followed by an AST mutation (operator swap, wrap in unary/paren/call/index/ErrWrap/selector/slice/star, move into lambda / block lambda / comprehension / range / slice literal / function literal, call <-> command style; printed comment-free with printer.Fprint and kept only if it parses), comments at conventional places (// and # on a line of their own before a statement, declaration, spec or field, // trailing a statement line) and a white-space perturbation (blanks, tabs, line breaks at token boundaries that do not touch a comment; kept only if it parses). Oracle: format.Source succeeds, its output parses, and astx.FormatEqual(parse(src), parse(out)) = equal ignoring positions, comment fields, ParenExpr wrappers, explicit empty statements and the order / duplicates / quoting of import specs. A failing source that shows the shape of a listed finding (fmtin.Shapes) fails under class shape/<name>, any other under its own class; Non-trivial = tree holds an XGo-specific construct (command call, lambda, comprehension, ErrWrap, range, domain text, overload declaration, class field block, ...); distinct = source bytes")
 }
 
 type Case struct {
@@ -133,13 +133,6 @@ var (
 )
 
 func run(t failer, c Case, labels ...string) {
-	// the one shape that ends the process (log.Fatalf in the printer) cannot be evaluated in-process:
-	// it is steered away from here and kept as an isolated regress file
-	if f, fset, err := fmtin.Parse(c.Src, c.Class); err == nil && fmtin.OneLineForPhrase(f, fset) {
-		vk.R.Excluded("crash")
-		vk.R.Case(false, "")
-		return
-	}
 	v, in := check(c)
 	if in.rejected != "" {
 		vk.R.Rejected(in.rejected)
